@@ -172,6 +172,18 @@ def _is_tail(a, b):
     return a != b and len(a) <= len(b) and b[len(b) - len(a):] == a
 
 
+def _deps(module, names, prefix, why):
+    """callee contracts this property's clauses are stated against, discharged here as well (same harness objects, other names)"""
+    out = []
+    for o in module.obligations():
+        base = o.name.split("[")[0]
+        if base in names and o.tier == "quick":
+            out.append(Obligation(o.name.replace(base.split(".")[0] + ".", prefix, 1), o.fn, kind=o.kind, functions=o.functions, bound=o.bound, max_paths=o.max_paths, params=o.params,
+                                  timeout_ms=o.timeout_ms, expect=o.expect, stubs=o.stubs, runner=o.runner, time_budget_s=o.time_budget_s,
+                                  doc=f"(callee contract, shared with {base.split('.')[0]}: {why}) " + (o.doc or "")))
+    return out
+
+
 def obligations():
     fs = [dp.prepare_problem, dp._validate_zone_tree_structure, dp._rewrite_stream_zones_from_tree, dp._get_process_streams_in_each_subzone, dp._create_nested_zones,
           dp._set_utilities_for_zone_and_subzones, Zone.import_hot_and_cold_streams_from_sub_zones]
@@ -188,4 +200,6 @@ def obligations():
     base3 = Obligation("C10.conserved3.b", _ob(3), kind="smallscope", tier="thorough", functions=fs, max_paths=4000000, time_budget_s=7200,
                        bound=f"every triple of streams over {len(LABELS)} labels (exhaustive)")
     obs += split(base3, zone_tree=TREES, label0=LABELS)
+    from . import C19
+    obs += _deps(C19, ("C19.coll.ops.b",), "C10.dep.", "a collection keeps every member it is given, also when names clash")
     return obs
